@@ -706,4 +706,144 @@ theorem plan_allowed (cfg : Cfg) (dms p : List DirMeta) (hok : cfg.Ok)
       · exact Or.inr (Or.inl ⟨h2.1, h2.2.1, h2.2.2.1, h2.2.2.2.1.mono hsub, h2.2.2.2.2⟩)
       · exact Or.inr (Or.inr h3)
 
+/-! ### the metadata-level loop decreases `measure` -/
+
+theorem filter_split_length {α} (l : List α) (f : α → Bool) :
+    (l.filter f).length + (l.filter (fun x => !f x)).length = l.length := by
+  induction l with
+  | nil => rfl
+  | cons x xs ih =>
+    simp only [List.filter_cons]
+    cases f x <;> simp <;> omega
+
+def tombD (d : DirMeta) : Bool := decide (d.bm.numTombstones > 0)
+
+theorem measure_map (l : List DirMeta) :
+    measure (l.map (·.bm)) = l.length + (l.filter tombD).length := by
+  unfold measure
+  rw [List.length_map, List.filter_map, List.length_map]
+  rfl
+
+theorem enumFrom_map_bm (k : Nat) (ms : List Meta) : (enumFrom k ms).map (·.bm) = ms := by
+  induction ms generalizing k with
+  | nil => rfl
+  | cons m ms ih => simp [enumFrom, ih]
+
+theorem enumFrom_dir_ge (k : Nat) (ms : List Meta) : ∀ d ∈ enumFrom k ms, k ≤ d.dir := by
+  induction ms generalizing k with
+  | nil => simp [enumFrom]
+  | cons m ms ih =>
+    intro d hd
+    simp only [enumFrom, List.mem_cons] at hd
+    rcases hd with rfl | hd
+    · exact Nat.le_refl _
+    · have := ih (k + 1) d hd; omega
+
+theorem enumFrom_nodup (k : Nat) (ms : List Meta) : ((enumFrom k ms).map (·.dir)).Nodup := by
+  induction ms generalizing k with
+  | nil => simp [enumFrom]
+  | cons m ms ih =>
+    simp only [enumFrom, List.map_cons, List.nodup_cons]
+    refine ⟨?_, ih (k + 1)⟩
+    intro hmem
+    obtain ⟨d, hd, hdk⟩ := List.mem_map.mp hmem
+    have := enumFrom_dir_ge (k + 1) ms d hd
+    omega
+
+theorem enum_nodup (ms : List Meta) : ((enum ms).map (·.dir)).Nodup := enumFrom_nodup 0 ms
+
+theorem measure_append_clean (ms : List Meta) (m : Meta) (h : m.numTombstones = 0) :
+    measure (ms ++ [m]) = measure ms + 1 := by
+  unfold measure
+  simp [List.filter_append, h]
+  omega
+
+theorem applyPlan_measure_le (metas : List Meta) (p : List DirMeta) :
+    measure (applyPlan metas p) ≤
+      measure (((enum metas).filter fun d => !(p.map (·.dir)).contains d.dir).map (·.bm)) + 1 := by
+  unfold applyPlan
+  simp only []
+  split
+  · omega
+  · split
+    · rw [measure_append_clean _ _ rfl]; omega
+    · omega
+
+theorem step_decreases (cfg : Cfg) (metas : List Meta) (p : List DirMeta) (hok : cfg.Ok)
+    (h : planMetas cfg metas = .ok p) (hne : p ≠ []) :
+    measure (applyPlan metas p) < measure metas := by
+  unfold planMetas at h
+  obtain ⟨cls, hsub, _, hpc⟩ := plan_spec cfg _ p hok h
+  have hso : SubOf p (enum metas) := (planClass_subOf cfg cls p hok hpc).of_sublist hsub
+  have hsize := planClass_size cfg cls p hok hpc
+  have hle := applyPlan_measure_le metas p
+  rw [measure_map] at hle
+  have hm : measure metas = (enum metas).length + ((enum metas).filter tombD).length := by
+    rw [← measure_map, enum, enumFrom_map_bm]
+  generalize enum metas = E at *
+  let planned : DirMeta → Bool := fun d => (p.map (·.dir)).contains d.dir
+  have hkeep : (fun d : DirMeta => !(p.map (·.dir)).contains d.dir) = fun d => !planned d := rfl
+  rw [hkeep] at hle
+  have hsplit := filter_split_length E planned
+  have hpall : p.filter planned = p := by
+    apply List.filter_eq_self.mpr
+    intro d hd
+    simp only [planned, List.contains_eq_mem, decide_eq_true_eq]
+    exact List.mem_map.mpr ⟨d, hd, rfl⟩
+  have hcount := hso.filter_length planned
+  rw [hpall] at hcount
+  have htsub : ((E.filter fun d => !planned d).filter tombD).length ≤ (E.filter tombD).length :=
+    (List.filter_sublist.filter tombD).length_le
+  rcases hsize with h0 | h2 | ⟨v, rfl, hv⟩
+  · exact absurd h0 hne
+  · omega
+  · -- single block: its tombstones disappear
+    have hq := hso.filter_length (fun d => planned d && tombD d)
+    have hv' : ([v].filter fun d => planned d && tombD d) = [v] := by
+      apply List.filter_eq_self.mpr
+      intro d hd
+      simp only [List.mem_singleton] at hd
+      subst hd
+      simp [planned, tombD, hv]
+    rw [hv'] at hq
+    have hts := filter_split_length (E.filter tombD) planned
+    rw [List.filter_filter, List.filter_filter] at hts
+    have e1 : (E.filter fun a => (planned a && tombD a)).length = (E.filter fun d => planned d && tombD d).length := rfl
+    have e2 : ((E.filter fun d => !planned d).filter tombD).length = (E.filter fun a => (!planned a && tombD a)).length := by
+      rw [List.filter_filter]
+      congr 1
+      apply List.filter_congr
+      intro x _
+      exact Bool.and_comm _ _
+    simp only [List.length_singleton] at hq hcount
+    omega
+
+theorem plan_converges_aux (cfg : Cfg) (hok : cfg.Ok) :
+    ∀ n metas, measure metas ≤ n →
+      ∃ k, k ≤ measure metas ∧ planMetas cfg (iterate cfg k metas) = .ok [] := by
+  intro n
+  induction n with
+  | zero =>
+    intro metas hm
+    obtain ⟨p, hp⟩ := plan_ok cfg (enum metas) hok
+    cases p with
+    | nil => exact ⟨0, Nat.zero_le _, hp⟩
+    | cons a b =>
+      have := step_decreases cfg metas (a :: b) hok hp (by simp)
+      omega
+  | succ n ih =>
+    intro metas hm
+    obtain ⟨p, hp⟩ := plan_ok cfg (enum metas) hok
+    cases p with
+    | nil => exact ⟨0, Nat.zero_le _, hp⟩
+    | cons a b =>
+      have hdec := step_decreases cfg metas (a :: b) hok hp (by simp)
+      have hstep : compactStep cfg metas = applyPlan metas (a :: b) := by
+        unfold compactStep
+        rw [show planMetas cfg metas = .ok (a :: b) from hp]
+      obtain ⟨k, hk, hfin⟩ := ih (applyPlan metas (a :: b)) (by omega)
+      refine ⟨k + 1, by omega, ?_⟩
+      show planMetas cfg (iterate cfg k (compactStep cfg metas)) = .ok []
+      rw [hstep]; exact hfin
+
 end Prom.CompactPlan
